@@ -127,6 +127,7 @@ def _protection_policy(policy, consult):
       'pyglove.core.utils.value_location:KeyPath.key',
       'pyglove.core.utils.value_location:KeyPath.__bool__',
       'pyglove.core.utils.value_location:KeyPath.__len__'}
+  policy.handlers[('native_class', pg.KeyPath)] = True
   policy.handlers[id(base.treats_as_sealed)] = answer('protected')
   policy.handlers[id(base.writtable_via_accessors)] = answer('writable')
 
